@@ -82,6 +82,7 @@ def search(ctx):
     hat_of = {"so3": F("SO3", "so3.toMatrix"), "se3": F("SE3", "se3.toMatrix"), "se23": F("SE23", "se23.toMatrix"), "se2": F("SE2", "se2.toMatrix")}
     ad_of = {"so3": F("SO3", "so3.ad"), "se3": F("SE3", "se3.ad"), "se23": F("SE23", "se23.ad")}
     exps = [("SO3Dcm", "SO3", "so3", 3), ("SO3Quat", "SO3", "so3", 3), ("SO3Mrp", "SO3", "so3", 3), ("SE2", "SE2", "se2", 3),
+            ("SE2", "SE2", "se2-", 3),
             ("SE3Quat", "SE3", "se3", 6), ("SE3Mrp", "SE3", "se3", 6), ("SE23Quat", "SE23", "se23", 9), ("SE23Mrp", "SE23", "se23", 9)]
     axis = nl.rand_axis(rng)
     tr = rng.standard_normal(6) * 0.7     # O(1) translational inputs
@@ -89,7 +90,9 @@ def search(ctx):
         sides["zero" if th == 0 else "taylor" if th * th < 1e-3 else "closed"] += 1
         for (g, mod, alg, k) in exps:
             x = np.zeros(k)
-            if alg == "se2":
+            if alg == "se2-":
+                alg = "se2"; x[:2] = tr[:2]; x[2] = -th     # negative planar angle
+            elif alg == "se2":
                 x[:2] = tr[:2]; x[2] = th
             else:
                 x[:k - 3] = tr[:k - 3]; x[k - 3:] = axis * th
@@ -149,6 +152,22 @@ def search(ctx):
     checks.append(("SE23Mrp.exp", v9, lie.se23.elem(v9).exp(lie.SE23Mrp).param))
     checks.append(("SE23Mrp.log", v9, lie.SE23Mrp.elem(v9).log().param))
     checks.append(("SE3Mrp.log", v6, lie.SE3Mrp.elem(v6).log().param))
+    checks.append(("SE2.log", v3, lie.SE2.elem(ca.vertcat(v3[1], v3[2], v3[0])).log().param))
+    # logs of the other SO(3) parameterisations, linearised at the identity through exp (chain rule through a
+    # smooth exp: finite iff the log's own derivative is finite at the identity element)
+    q4 = ca.SX.sym("q", 4); r9 = ca.SX.sym("r", 9); x7 = ca.SX.sym("x", 7); x10 = ca.SX.sym("x", 10)
+    group_logs = [("SO3Quat.log", q4, lie.SO3Quat.elem(q4).log().param, lambda th: np.concatenate([[math.cos(th / 2)], math.sin(th / 2) * axis])),
+                  ("SO3Dcm.log", r9, lie.SO3Dcm.elem(r9).log().param, lambda th: nl.quat_to_R(np.concatenate([[math.cos(th / 2)], math.sin(th / 2) * axis])).reshape(-1, order="F")),
+                  ("SO3Euler.log", v3, lie.SO3EulerB321.elem(v3).log().param, lambda th: np.array([th * axis[2], th * axis[1], th * axis[0]])),
+                  ("SE3Quat.log", x7, lie.SE3Quat.elem(x7).log().param, lambda th: np.concatenate([tr[:3], [math.cos(th / 2)], math.sin(th / 2) * axis])),
+                  ("SE23Quat.log", x10, lie.SE23Quat.elem(x10).log().param, lambda th: np.concatenate([tr[:6], [math.cos(th / 2)], math.sin(th / 2) * axis]))]
+    for nm, v, expr, elem in group_logs:
+        Jf = ca.Function("J", [v], [ca.jacobian(expr, v)])
+        for th in (0.0, 1e-300, 1e-160, 1e-20, 1e-8):
+            Jv = np.array(Jf(elem(th))); ev += 1
+            if not np.all(np.isfinite(Jv)):
+                report(nm + ":AD", "automatic-differentiation Jacobian of the log is not finite at/near the identity element",
+                       {"theta": th, "element": np.asarray(elem(th)).tolist()}, 1.0)
     for nm, v, expr in checks:
         Jf = ca.Function("J", [v], [ca.jacobian(expr, v)])
         k = v.shape[0]
